@@ -1059,11 +1059,13 @@ func (g *schemaGenerator) generateEnumType(t *schemas.Type, scope nameScope) (co
 
 	if len(t.Type) == 1 {
 		var err error
+		// The value table is emitted as untyped constants and compared with reflect.DeepEqual,
+		// so an integer enum keeps the plain int type also when sized integers are requested.
 		if enumType, err = codegen.PrimitiveTypeFromJSONSchemaType(
 			t.Type[0],
 			t.Format,
 			false,
-			g.config.MinSizedInts,
+			false,
 			&t.Minimum,
 			&t.Maximum,
 			&t.ExclusiveMinimum,
